@@ -31,7 +31,9 @@ def configs(tier, seed):
     out = []
     # restricted-open: restricted walker container with an open-shell (2,1) UHF trial (the beta determinant is the
     # leading n_dn columns), the configuration in which "QR changes nothing for the cached overlap" is false
-    for wt in ("restricted", "unrestricted", "restricted-open"):
+    # restricted-tinytrial: the same RHF trial with unnormalised orbitals (x 1e-5): every overlap is ~1e-10, so anything
+    # that treats the stored overlap on an absolute scale (floors, thresholds) makes it incoherent with the walker
+    for wt in ("restricted", "unrestricted", "restricted-open", "restricted-tinytrial"):
         for first in [(e, s) for e in ENTRIES for s in sorted(STRUCTS)]:
             out.append(dict(wt=wt, first=list(first), seed=seed, tier=tier))
     return out
@@ -65,17 +67,18 @@ def job(cfg):
     res = Result()
     thorough = cfg["tier"] == "thorough"
     wt = cfg["wt"]
-    n, na, nb = (3, 1, 1) if wt == "restricted" else (3, 2, 1)
+    n, na, nb = (3, 1, 1) if wt in ("restricted", "restricted-tinytrial") else (3, 2, 1)
     container = "restricted" if wt.startswith("restricted") else "unrestricted"
     depth = 3 if thorough else 2
     D = 3 if thorough else 2
     n_draws = 8 * depth + 2
-    sysd = samplers.system(n, na, nb, 1, cfg["seed"], "restricted" if wt == "restricted" else "unrestricted", scale=0.7)
+    sysd = samplers.system(n, na, nb, 1, cfg["seed"], "restricted" if wt in ("restricted", "restricted-tinytrial") else "unrestricted", scale=0.7)
     tabs, tu, S = tables(cfg["seed"], n_draws, D)
     vr = vrng.install(tabs, tu)
     L = samplers.lib()
     jnp = L["jnp"]
-    B = samplers.build(sysd, container, NW, dt=DT, n_batch=1, trial_kind=("uhf" if wt == "restricted-open" else None))
+    B = samplers.build(sysd, container, NW, dt=DT, n_batch=1, trial_kind=("uhf" if wt == "restricted-open" else None),
+                       mo_scale=(1.0e-5 if wt == "restricted-tinytrial" else 1.0))
     samps = {k: L["sampling"].sampler(ns, ne, nsr, 1) for k, (ns, ne, nsr) in STRUCTS.items()}
     letters = [(e, s) for e in ENTRIES for s in sorted(STRUCTS)]
     first = tuple(cfg["first"])
@@ -87,6 +90,38 @@ def job(cfg):
         if s % 2 == 1:
             pd["weights"] = jnp.asarray(W0)
         init.append((pd, samplers.copy_pd(pd)))
+    # shortest history of all: init_prop_data (library-made or caller-supplied walkers) followed directly by ONE public
+    # step -- no sampler entry point in between to refresh anything.  Supplied walkers are deliberately not in
+    # QR-canonical form (unnormalised, non-orthogonal, complex), which the documentation allows.
+    if first == letters[0]:
+        rngw = np.random.default_rng(4242 + cfg["seed"])
+        pd_lib0 = samplers.fresh_prop_data(B, vrng.key(0))
+
+        def distort(W):
+            W = np.asarray(W)
+            k = W.shape[-1]
+            T = np.eye(k) * 1.7 + 0.4 * rngw.normal(size=(NW, k, k)) + 0.3j * rngw.normal(size=(NW, k, k))
+            return jnp.asarray(np.einsum("wik,wkl->wil", W + 0.05 * rngw.normal(size=W.shape), T))
+
+        if container == "restricted":
+            supplied = distort(pd_lib0["walkers"])
+        else:
+            supplied = [distort(pd_lib0["walkers"][0]), distort(pd_lib0["walkers"][1])]
+        for lab, iw in (("library-made", None), ("supplied-non-canonical", supplied)):
+            for s in range(min(S, 3)):
+                pd = B["prop"].init_prop_data(B["trial"], B["wave_data"], B["ham_data"], iw)
+                pd["key"] = vrng.key(s)
+                ov_now = np.asarray(gridmc.jitted(B["trial"], "calc_overlap")(pd["walkers"], B["wave_data"]))
+                inc0 = float(np.max(np.abs(np.asarray(pd["overlaps"]) - ov_now) / np.abs(ov_now)))
+                pd["_verif_incoh"] = jnp.asarray(0.0)
+                fields = jnp.asarray(tabs[(STRUCTS["A"][0], NW, 1)][s][0][0])
+                pd1 = B["prop"].propagate(B["trial"], B["ham_data"], pd, fields, B["wave_data"])
+                inc1 = float(pd1["_verif_incoh"])
+                res.add(states=1, transitions=1, evaluations=1, traces=1)
+                res.guard("init_then_public_step[%s]" % lab, 1)
+                if not (inc0 <= 1e-10 and inc1 <= 1e-10):
+                    res.violation("init_prop_data/%s/%s/stale-overlap-read-by-first-public-step" % (wt, lab),
+                                  dict(cfg, what="init", walkers=lab, stream=s), dict(after_init=inc0, read_by_propagate=inc1))
     frontier = [((), init)]
     n_states = 0
     qr_nontrivial = 0
@@ -156,7 +191,8 @@ def run(ctx):
     ctx.assume("the hook records max_w |cached - recomputed|/|cached| at every propagate() entry (guarded, pre-seeded key carried through scan/checkpoint)")
     ctx.assume("converged SCF trial so that optimize() inside the AD entry points is the identity; zero coupling")
     ctx.pmap(job, configs(ctx.tier, ctx.seed), tasks_per_child=2)
-    ctx.require_guard("words_explored", "glue_qr_changed_walkers", "glue_comb_duplicated_a_walker", "propagate_entries_observed")
+    ctx.require_guard("words_explored", "glue_qr_changed_walkers", "glue_comb_duplicated_a_walker", "propagate_entries_observed",
+                      "init_then_public_step[library-made]", "init_then_public_step[supplied-non-canonical]")
 
 
 def replay(case):
